@@ -89,6 +89,26 @@ def run(ctx):
                 for k2 in pick(y.get('t2', 0), cap2):
                     pjobs.append((kind, progs, 0, os.path.join(ctx.scratch, 'mvp-%d' % len(pjobs)),
                                   {'plan': [('t1', k1), ('t2', k2)], 'order': ['t1', 't2'], 'yield_io': yio, 'pad': 6000 if yio else 0}))
+    # window sweep at source-line granularity inside the read-file pool: the committer is stopped everywhere between
+    # its vote and its abort, the reader at EVERY yield point (lines of FilePool.get / flush included)
+    wprogs = DIRECTED[0]
+    wkw = {'yield_io': True, 'pad': 6000, 'lines': True}
+    cal = mvcc.scenario(('file', wprogs, 0, os.path.join(ctx.scratch, 'mvcalw'), dict(wkw, plan=[], order=['t2', 't1'])))
+    y1 = cal['yields'].get('t1', 0) + 8
+    y2 = cal['yields'].get('t2', 0) + 12
+    pre = par.pmap(mvcc.scenario, [('file', wprogs, 0, os.path.join(ctx.scratch, 'mvw-%d' % k1),
+                                    dict(wkw, plan=[('t1', k1)], order=['t2', 't1'])) for k1 in range(1, y1)], chunksize=4)
+    inwin = []
+    for k1, r in zip(range(1, y1), pre):
+        evs = [e['ev'] for e in r['trace'] if e.get('thread') == 't1']
+        cut = next((i for i, e in enumerate(r['trace']) if e.get('thread') == 't2'), len(r['trace']))
+        before = [e['ev'] for e in r['trace'][:cut] if e.get('thread') == 't1']
+        if 'BeginVote' in before and 'TpcAbort' not in before:
+            inwin.append(k1)
+    wjobs = [('file', wprogs, 0, os.path.join(ctx.scratch, 'mvw-%d-%d' % (k1, k2)),
+              dict(wkw, plan=[('t1', k1), ('t2', k2)], order=['t1', 't2']))
+             for k1 in (inwin if not q else inwin[:6]) for k2 in range(1, y2)]
+    pjobs += wjobs
     res = par.pmap(mvcc.scenario, jobs + pjobs, chunksize=8)
     # spec -> code: TLC behaviours of ZMvcc as directed schedules
     from ..drivers import mvcc_directed
@@ -149,7 +169,7 @@ def run(ctx):
                           replay={'kind': r['kind'], 'programs': r['programs'], 'seed': r['seed'], 'index': k})
     return ctx.finish({
         'evaluations': len(res),
-        'systematic_preemption_runs': len(pjobs), 'distinct_traces_validated': len(uniq_idx),
+        'systematic_preemption_runs': len(pjobs), 'vote_abort_window_runs_at_line_granularity': len(wjobs), 'distinct_traces_validated': len(uniq_idx),
         'distinct_nontrivial': min(nontrivial, len(distinct)),
         'distinct_traces': len(distinct),
         'directed_schedules': directed,
